@@ -183,7 +183,15 @@ def run(pid, tier, seed):
                 where = os.path.basename(f['file']) + ':' + re.sub(r'\W+', '_', f['check'])[:60]
                 confirmed.append({'key': f'{pid}|kani|{r["harness"]}|{where}', 'harness': r['harness'], 'failure': f, 'playback': pb})
         else:
-            inconclusive.append(f'kani {r["harness"]}: failure does not reproduce natively under concrete playback: {r["failures"][:2]}')
+            # a failure that concrete playback cannot reproduce: run the harness once more (observed once: a spurious failure of
+            # kani_lib.c's dealloc model check under heavy machine load that did not recur); a genuine failure is deterministic
+            r2 = run_harness(r['harness'], TIMEOUT[tier])
+            r['retry'] = {'verdict': r2['verdict'], 'failures': r2['failures'][:2]}
+            if r2['verdict'] == 'pass':
+                r['verdict'] = 'pass-on-retry'
+                r['checks'] = r2['checks']
+            else:
+                inconclusive.append(f'kani {r["harness"]}: failure does not reproduce natively under concrete playback: {r["failures"][:2]}')
     known = {k['key']: k for k in common.load_known().get('known', []) if k['property'] == pid}
     new = []
     seen = set()
